@@ -22,9 +22,18 @@ func hxMutexHeld(m *sync.Mutex) bool {
 func HarnessC13Locks() {
 	nm := 1 + svPick("msgs", svParam("msgs", 2))
 	nr := 1 + svPick("rcpts", svParam("rcpts", 1))
-	s := hxNewSrv([]string{"8BITMIME", "DSN"})
+	// with authentication configured every dial builds and drives an Auth object
+	authMode := svPick("auth", svParam("auths", 2)) // 0 none, 1 LOGIN
+	caps := []string{"8BITMIME", "DSN"}
+	copts := []Option{WithDSN()}
+	if authMode == 1 {
+		caps = append(caps, "AUTH PLAIN LOGIN")
+		copts = append(copts, WithSMTPAuth(SMTPAuthLoginNoEnc), WithUsername("user"), WithPassword("secret"))
+	}
+	s := hxNewSrv(caps)
+	s.authFn = hxAuthSimple
 	s.maxDev = svParam("maxdev", 1)
-	c := hxNewClient(s, WithDSN())
+	c := hxNewClient(s, copts...)
 	if err := c.DialWithContext(context.Background()); err != nil {
 		svReach("dial-failed")
 		svAssert(svLockErrors() == "", "C13 lock misuse during dial: "+svLockErrors())
@@ -48,6 +57,10 @@ func HarnessC13Locks() {
 	}
 	svWatch(c)
 	svWatch(c.smtpClient)
+	if c.smtpAuth != nil {
+		// an Auth object kept on the Client is shared by every later dial
+		svWatch(c.smtpAuth)
+	}
 	svLogStart(1)
 	_ = c.Send(msgs...)
 	svLogStop()
@@ -61,7 +74,8 @@ func HarnessC13Locks() {
 		svAssert(false, "C13 unsynchronised access in Send || Send to "+r)
 	}
 	// (3) DialAndSend works on a private connection only
-	s2 := hxNewSrv([]string{"8BITMIME", "DSN"})
+	s2 := hxNewSrv(caps)
+	s2.authFn = hxAuthSimple
 	s2.onlyOK = true
 	before := len(s.cmds) + s.closeCalls
 	c.dialContextFunc = hxDialFunc(s2)
